@@ -229,7 +229,7 @@ def api_history(ex, fifo=False, crash_is_stuck=True):
                 out.append(a)
         elif k == 'stuck':
             out.append(norm_api({'op': 'stuck'}, 'stuck'))
-    if ex.status in ('crash', 'timeout', 'aborted') and crash_is_stuck:
+    if ex.status in ('crash', 'timeout', 'aborted', 'steplimit') and crash_is_stuck:
         out.append(norm_api({'op': ex.status}, 'stuck'))
     return out
 
